@@ -278,6 +278,9 @@ F5_SCRIPTS = {
     "global-derived-after-loop-reassignment": "x = 1\nfor i in range(3):\n    x = x * 2\ny = x + 1\nmon.write(y)\n",
     "global-derived-after-swap": "p = 3\nq = 9\np, q = q, p\nr = p - q\nmon.write(r)\n",
     "string-derived-after-reassignment": "s = 'ab'\ns = 'abcdef'\nt = s + '!'\nmon.write(t)\n",
+    "later-branch-reads-name-rebound-in-earlier-branch": "label = 'ab'\nk = 0\nwhile True:\n    if k % 2 == 0:\n        mon.write('even')\n    elif k == 99:\n        label = 'abcd'\n        mon.write(len(label))\n    else:\n        mon.write(len(label))\n    k = k + 1\n    sleep(1)\n",
+    "else-branch-reads-list-rebound-in-if-branch": "pat = [1, 0, 0]\nc = 0\nif c > 0:\n    pat = [1, 1, 1, 1]\n    mon.write(len(pat))\nelse:\n    mon.write(len(pat))\n",
+    "folded-chained-comparison": "mon.write(100 if 1 < 5 < 3 else 200)\nmon.write(0 <= 300 <= 255)\nsleep(100 if 10 > 4 > 7 else 20)\n",
     "derived-in-main-loop": "x = 1\nwhile True:\n    y = x + 1\n    mon.write(y)\n    x = x + 2\n    sleep(1)\n",
 }
 
